@@ -3,7 +3,7 @@
 ALL = ["CreateGroup", "CreateObject", "AddData", "AddVisual", "AddComment", "AddFile", "CreateWithUid", "Rename", "SetFlag", "SetVal", "SetMeta", "Move", "MoveSame", "AddToGroup",
        "AddDataFails", "StripOpt", "SaveAs", "Helper", "Copy2", "Remove2", "ScrubData", "CreateDeferred", "PGWithUid",
        "RemoveFromGroup", "RemovePG", "RemoveViaWorkspace", "RemoveViaParent", "DropRef", "Collect", "Purge",
-       "LookupDead", "Copy", "Close", "Open", "CallClosed", "RemoveBlocked", "OpenAgain", "SetType", "Copy2Data", "RemoveNotAChild"]
+       "LookupDead", "Copy", "Close", "Open", "CallClosed", "RemoveBlocked", "OpenAgain", "SetType", "Copy2Data", "RemoveNotAChild", "CopyIntoSelf"]
 INV_ASBUILT = ["TypeOK", "DirtyOnlyInRW", "W2WellFormed", "ReopenEqualsLive", "LinksToNodes", "OneParent", "PGPropsAreChildren", "WriteThrough",
                "NoDanglingPG", "RegistryMatchesMemory"]
 PROPS = ["Footprint", "FrozenFile", "OptStaysStripped", "FreshOnlyWhenTaken"]
@@ -30,7 +30,7 @@ def minus(*drop):
 
 
 GC = ["DropRef", "Collect", "Purge", "LookupDead"]
-NEW = ["RemoveBlocked", "OpenAgain", "SetType", "Copy2Data", "RemoveNotAChild", "AddComment", "AddFile", "AddVisual", "SetMeta", "MoveSame", "AddDataFails", "StripOpt", "SaveAs", "Helper", "Copy2", "Remove2", "ScrubData", "CreateDeferred", "PGWithUid"]
+NEW = ["RemoveBlocked", "OpenAgain", "SetType", "Copy2Data", "RemoveNotAChild", "CopyIntoSelf", "AddComment", "AddFile", "AddVisual", "SetMeta", "MoveSame", "AddDataFails", "StripOpt", "SaveAs", "Helper", "Copy2", "Remove2", "ScrubData", "CreateDeferred", "PGWithUid"]
 BASE = minus("CreateWithUid", "CallClosed", *NEW)
 # --- C01: histories of create/assign/rename/move/copy/delete with close/re-open and GC points
 cfg("C01_quick", 1, 1, 1, 1, [a for a in BASE if a != "SetFlag"] + ["MoveSame", "CreateDeferred", "AddDataFails"], 6, names=("a",), vals=(1, 2))
@@ -99,7 +99,7 @@ C12A = ["CreateGroup", "CreateObject", "AddData", "AddToGroup", "Copy", "SetVal"
 cfg("C12_quick", 1, 2, 2, 1, C12A, 5, names=("a", "b"), vals=(1, 2))
 cfg("C12_thorough", 2, 2, 3, 2, C12A + ["SetFlag", "Move"], 5, names=("a", "b"), vals=(1, 2))
 # nested groups with differently named members, copied deep and shallow (options given to copy() are for the copied entity only)
-cfg("C12grp_quick", 2, 2, 1, 1, ["CreateGroup", "CreateObject", "Copy"], 5, names=("a", "b"), vals=(1,))
+cfg("C12grp_quick", 2, 2, 1, 1, ["CreateGroup", "CreateObject", "Copy", "CopyIntoSelf"], 5, names=("a", "b"), vals=(1,))
 # visual parameters and metadata of copies (aliasing between copy and source)
 cfg("C12vp_quick", 1, 2, 2, 1, ["CreateObject", "AddVisual", "AddData", "Copy", "SetMeta", "RemoveViaWorkspace", "Close", "Open"], 6,
     names=("a",), vals=(1, 2))
